@@ -1255,6 +1255,18 @@ def process(problems, impl, model, tier_quick, stats_all, log=None, cert_cap=Non
                 else:
                     for k2, v2 in so.items():
                         st[k2] = v2
+                    # volume sum of the old grid: its cells are cut with an absolute tolerance eps = 2e-10 |sides|^2 on the plane
+                    # distance, so every cell volume is off by at most (surface) x 4 eps kappa / |r|; the sum is checked whenever
+                    # that bound is informative (well below 1e-4 of the box) - also for cells the per-cell comparison skips
+                    L2o = sum(x * x for x in pr["sides"])
+                    tol_old = sum(4 * (4 * 2e-10 * L2o / geo[i]["rmin_half"] * geo[i]["kappa"]) * geo[i]["surface"] for i in range(n)) + 64 * U * n * vbox
+                    tot_o = sum(O["C"][i][0] for i in range(n))
+                    if tol_old <= 1e-4 * vbox:
+                        st["old_sum_checked"] = st.get("old_sum_checked", 0) + 1
+                        st["old_sum_worst_ratio"] = max(st.get("old_sum_worst_ratio", 0.0), abs(tot_o - vbox) / max(tol_old, 1e-300))
+                        if not (abs(tot_o - vbox) <= tol_old):
+                            fnd.add("nversion_old_volume_sum", "OldVoronoiGrid: cell volumes sum to %.17g, box volume %.17g (relative difference %.3g, bound from its plane tolerance %.3g): "
+                                    "cells overlap or leave gaps" % (tot_o, vbox, (tot_o - vbox) / vbox, tol_old / vbox))
                     for it in fo.items:
                         fnd.add("nversion_" + it[0] if not it[0].startswith("nversion") else it[0], it[1], **it[2])
                     # neighbour relations: every genuine facet with non-negligible area must be a neighbour in the old grid too
@@ -1382,7 +1394,7 @@ def build_specs(rng, quick):
                 specs.append(make_spec(rng, cls, n, BOX_KINDS[bi % len(BOX_KINDS)], 16 if quick else 40))
                 bi += 1
     # larger sets: threaded construction (job size of the grids is 100 cells), certificates on a sample of cells
-    big = [("uniform", 320), ("perturbed3", 343)] if quick else [("uniform", 700), ("perturbed3", 1000), ("clustered", 1200), ("lattice", 1728), ("uniform", 2000), ("walls", 1500)]
+    big = [("uniform", 320), ("perturbed3", 343), ("uniform", 900)] if quick else [("uniform", 700), ("perturbed3", 1000), ("clustered", 1200), ("lattice", 1728), ("uniform", 2000), ("walls", 1500)]
     for cls, n in big:
         specs.append(make_spec(rng, cls, n, BOX_KINDS[bi % len(BOX_KINDS)], 24 if quick else 60))
         bi += 1
